@@ -85,6 +85,16 @@ CLAIMS.update({
     },
 })
 
+TECH_PATHS = "bounded symbolic execution of the compiled Rust code, path by path (Kani 0.68 -> CBMC 6.11 --paths lifo -> CaDiCaL): kani::any() bytes after a concrete prefix, unwinding assertions, one SAT query per control-flow path (no path merging, so the tokenizer's read position stays concrete along a path); counterexamples replayed natively (Kani concrete playback)"
+
+CLAIMS.update({
+    "C16": {
+        "text": "Decides for inputs `prefix ++ s` - a concrete prefix that puts the tokenizer into one of ~50 of its states (data, tag open, tag name, attribute key / value in each quoting mode, end tag, bogus comment, markup declaration, comment with 0-3 trailing dashes, DOCTYPE, CDATA with 0-2 brackets, raw-text elements, and the script-data states: plain, escaped, double-escaped, partial end tags; document and fragment contexts) followed by ALL byte strings s of length 1-3 - that tokenisation never panics (all of Kani's checks on), ends within |input|+1 tokens, every non-final token consumes at least one byte, raw spans are contiguous from offset 0 and inside the buffer (raw spans + unread remainder reproduce the input), data spans are ordered sub-ranges of the buffer that fall on char boundaries whenever the input is valid UTF-8 (so text()/tag_name() cannot fail or panic on their slice), and - in the c16_tok_acc_* harnesses - that the real tag_name() accessor succeeds on valid UTF-8. The failing inputs of this family (a `--!>` right after `<!--`, a continuation byte that a predicate mistakes for white space) are isolated byte values in a particular state, which sampling finds only by luck.",
+        "note": "Bounded: 1-3 symbolic bytes after each concrete prefix; inputs that do not start with one of the prefixes are outside the claim, as are tag_attr()/token()/text() themselves (text() is covered through its slice bounds only). Path-wise symbolic execution explores infeasible paths too (CBMC does not prune them), so the cost grows with the number of comparisons per byte; states whose 2-byte exploration ran past 25 min are registered with 1 symbolic byte, the rest are `wip` (DESIGN 3.4). Trusted: Kani/CBMC; the branch-free UTF-8 validity predicate in the harness.",
+        "design": "DESIGN.md §5 C16, §3.4",
+    },
+})
+
 NOT_APPLICABLE = {
     "C02": "every observable goes through seven nested std HashMap/BTreeMap layers and the heap-allocated regex tree; measured: CBMC does not finish even a 2-pattern tree lookup (DESIGN §2, C02)",
     "C03": "pending: text-filter chain harnesses are being sized; the HTML stage (tokenizer) is out of CBMC's reach (DESIGN §2 P1/P2, C03)",
@@ -122,7 +132,7 @@ def main():
             "engine": "kani-cbmc",
             "level_claimed": {"category": "model_checking", "text": c["text"], "design_ref": c["design"]},
             "level_note": c["note"],
-            "technique": TECH,
+            "technique": TECH_PATHS if pid in ("C16",) else TECH,
         })
     hooks_commits = subprocess.check_output(
         ["git", "-C", "/repo", "log", "--format=%h %s", "--grep=^verif hooks"], text=True).strip().splitlines()
